@@ -397,6 +397,53 @@ func genC08(c *Ctx) {
 			c.AddScenario(s, pols)
 		}
 	}
+	// directed: the peer's disconnect (or our own End) arrives at every point of a refresh exchange of an established
+	// session, in both roles: whatever the exchange context holds at that moment must be erased, not just dropped
+	for _, pol := range []int{polV3, polV2} {
+		for starter := 1; starter <= 2; starter++ {
+			for cut := 0; cut <= 4; cut++ {
+				for _, local := range []bool{false, true} {
+					pols := []int{pol, pol}
+					s := newSys(pols, c.R.U64())
+					s.keepSecrets()
+					book := &secretBook{}
+					if !s.Handshake(1, 2) {
+						continue
+					}
+					s.Send(1, []byte("directed-text-one"))
+					s.Pump(1, 2, 6)
+					s.Probe(c, 1, book)
+					s.Probe(c, 2, book)
+					s.tick(200)
+					other := 3 - starter
+					s.Query(other, starter) // starter receives the query and sends its D-H Commit
+					from, to := starter, other
+					for k := 0; k < cut; k++ { // the exchange runs for [cut] messages
+						idx := s.next(from)
+						if idx < 0 {
+							break
+						}
+						s.Deliver(from, idx, to, MNone)
+						s.Probe(c, 1, book)
+						s.Probe(c, 2, book)
+						from, to = to, from
+					}
+					if local {
+						s.End(1) // our own End in the middle of the exchange
+					} else {
+						s.End(2) // the peer ends: its disconnect travels behind whatever it has already sent
+					}
+					s.Probe(c, 1, book)
+					s.Probe(c, 2, book)
+					s.Pump(1, 2, 12)
+					s.Probe(c, 1, book)
+					s.Probe(c, 2, book)
+					c.Count("end-inside-refresh-exchange")
+					c.AddScenario(s, pols)
+				}
+			}
+		}
+	}
 	n, steps := 30, 40
 	if c.Thorough() {
 		n, steps = 300, 90
